@@ -43,6 +43,7 @@ type caseData struct {
 	Filename   bool   `json:"file,omitempty"`   // pass a file name to parser and config (other FriendlyErrorMessage branch)
 	DeadlineMS int    `json:"dl,omitempty"`     // context deadline of the evaluation (default 250 ms)
 	FullStack  bool   `json:"fullstack,omitempty"`
+	NoIface    bool   `json:"noiface,omitempty"` // do not call Interface() on the returned value
 	Enum       bool   `json:"enum,omitempty"` // not an input: enumerate builtins and methods
 	Key        string `json:"key,omitempty"`  // the case id (written to the stage log)
 
@@ -77,7 +78,7 @@ type obs struct {
 const (
 	screenStack   = 64 << 20 // bytes: native stack limit while screening (a confirmation run uses Go's default 1 GB)
 	heapGuard     = 5 << 30  // bytes of live heap objects at which the worker gives up (inconclusive)
-	caseWatchdog  = 20 * time.Second // 3x for cases that run with the default stack (deep nesting, deep data)
+	caseWatchdog  = 10 * time.Second // 3x for cases that run with the default stack (deep nesting, deep data)
 	markerOOM     = "VERIF-C03-MEMORY-GUARD"
 	markerHang    = "VERIF-C03-WATCHDOG"
 	stagesFile    = "stages.txt"
@@ -119,6 +120,85 @@ func procInit() {
 type run struct {
 	hash string
 	o    *obs
+}
+
+// note writes a remark about the running case to the stage log ("<key> #<text>").
+func (r *run) note(text string) {
+	if stageF != nil {
+		fmt.Fprintf(stageF, "%s #%s\n", r.hash, text)
+	}
+}
+
+// dataShape walks a returned value's containers iteratively (no native recursion) and reports whether
+// the data is cyclic and how deeply it is nested; the driver uses it to name the input class when the
+// process dies in Inspect / Interface of that value.
+func dataShape(root object.Object) string {
+	type frame struct {
+		obj  object.Object
+		kids []object.Object
+		next int
+	}
+	kidsOf := func(o object.Object) []object.Object {
+		switch v := o.(type) {
+		case *object.List:
+			return v.Value()
+		case *object.Map:
+			m := v.Value()
+			out := make([]object.Object, 0, len(m))
+			for _, x := range m {
+				out = append(out, x)
+			}
+			return out
+		}
+		return nil
+	}
+	onPath := map[object.Object]bool{}
+	var stack []frame
+	push := func(o object.Object) bool {
+		switch o.(type) {
+		case *object.List, *object.Map:
+		default:
+			return false
+		}
+		if onPath[o] {
+			return true
+		}
+		onPath[o] = true
+		stack = append(stack, frame{obj: o, kids: kidsOf(o)})
+		return false
+	}
+	if root == nil {
+		return "flat"
+	}
+	push(root)
+	maxDepth, nodes := len(stack), 0
+	for len(stack) > 0 {
+		f := &stack[len(stack)-1]
+		if f.next >= len(f.kids) {
+			delete(onPath, f.obj)
+			stack = stack[:len(stack)-1]
+			continue
+		}
+		k := f.kids[f.next]
+		f.next++
+		nodes++
+		if nodes > 3000000 {
+			return "huge"
+		}
+		if push(k) {
+			return "cyclic"
+		}
+		if len(stack) > maxDepth {
+			maxDepth = len(stack)
+		}
+	}
+	switch {
+	case maxDepth >= 1000:
+		return "deep"
+	case maxDepth == 0:
+		return "flat"
+	}
+	return "shallow"
 }
 
 func (r *run) mark(stage string) {
@@ -339,8 +419,13 @@ func (r *run) source(c *caseData, src string) {
 			return
 		}
 		o.Outcome = "value:" + string(res.Type())
+		if sh := dataShape(res); sh != "flat" && sh != "shallow" {
+			r.note("shape=" + sh)
+		}
 		r.guard("result-inspect", func() { _ = res.Inspect() })
-		r.guard("result-interface", func() { _ = res.Interface() })
+		if !c.NoIface {
+			r.guard("result-interface", func() { _ = res.Interface() })
+		}
 	}
 
 	if c.Direct {
@@ -358,11 +443,6 @@ func (r *run) source(c *caseData, src string) {
 		return
 	}
 
-	var cfg *risor.Config
-	if !r.guard("config", func() { cfg = risor.NewConfig(opts...) }) {
-		o.Outcome = "go-panic"
-		return
-	}
 	var prog *ast.Program
 	var perr error
 	if !r.guard("parse", func() { prog, perr = parser.Parse(ctx, src, popts...) }) {
@@ -373,6 +453,12 @@ func (r *run) source(c *caseData, src string) {
 		r.formatErr("parse", perr)
 		o.Outcome = errKind("parse", perr, o.ErrText)
 		r.mark("done")
+		return
+	}
+	// the configuration (default globals) is only needed from here on
+	var cfg *risor.Config
+	if !r.guard("config", func() { cfg = risor.NewConfig(opts...) }) {
+		o.Outcome = "go-panic"
 		return
 	}
 	var code *compiler.Code
@@ -420,6 +506,9 @@ func (r *run) source(c *caseData, src string) {
 			if cerr != nil {
 				r.formatErr("call", cerr)
 			} else if cres != nil {
+				if sh := dataShape(cres); sh != "flat" && sh != "shallow" {
+					r.note("shape=" + sh)
+				}
 				r.guard("call-result-inspect", func() { _ = cres.Inspect() })
 				r.guard("call-result-interface", func() { _ = cres.Interface() })
 			}
